@@ -8,6 +8,7 @@ CONSTANTS
   Depth = 3
   MaxObjs = 2
   Parents = {"none"}
+  Fmts = {"F1", "F2"}
   Variant = "impl"
 INVARIANT ExactlyOnce
 INVARIANT RightList
